@@ -140,6 +140,16 @@ def enumerate_cases(tier, shard, nshards):
         i += 1
         if i % nshards == shard:
             yield {"enum": True, "seq": None, "model": sut.registry()[v].hardware.model, "soft": "", "canonical_of": v}
+    # other spellings of the same strings (all lower case, doubled blanks): the family regexes are case- and space-sensitive
+    seen_sp = set()
+    for s_ in seqs:
+        for model in synth(s_)[:2]:
+            for sp in (model.lower(), model.replace(" ", "  "), model.upper()):
+                if sp != model and sp not in seen_sp:
+                    seen_sp.add(sp)
+                    i += 1
+                    if i % nshards == shard:
+                        yield {"enum": True, "seq": None, "model": sp, "soft": "", "spelling_of": model}
     for a, b, model in combos():
         for soft in (SOFTS if tier == "thorough" else SOFTS[:2]):
             i += 1
@@ -220,7 +230,31 @@ def check(case):
         for i in range(1, len(t)):
             if t[:i] in known and t[:i] not in tset:
                 raise Violation("not-hierarchical", f"model {model!r}: {'.'.join(t)} is true but its ancestor {'.'.join(t[:i])} is false", det)
+    # reference reading of devdb.json: a full sequence is true iff every regex along its chain finds a match in the model string - for THIS
+    # spelling of the model (the regexes are case- and space-sensitive), whatever other spellings the process has seen before
+    d_ = db()
+    ref_full = set()
+    for sname in d_:
+        parts = sname.split(".")
+        if all(re.search(d_[".".join(parts[:i + 1])], model) for i in range(len(parts))):
+            ref_full.add(tuple(parts))
+    got_full = {t for t in tset if ".".join(t) in d_}
+    if got_full != ref_full:
+        raise Violation("parse-differs-from-devdb", f"model {model!r}: true sequences {sorted('.'.join(t) for t in got_full)} but the regex chains "
+                        f"of devdb.json give {sorted('.'.join(t) for t in ref_full)}", det)
     hw = HardwareView(model, soft)
+    # the view answers for every known sequence what the parse says (rulebook templates and vendor expressions go through the view)
+    for seq_t in sorted(known):
+        if not all(seq_t[:i] in known for i in range(1, len(seq_t))):
+            continue   # (a path through an ambiguous, hence unknown, short name cannot be walked: by design)
+        expr = ".".join(seq_t)
+        try:
+            ans = hw.match(expr)
+        except AttributeError as e:
+            raise Violation("view-disagrees", f"model {model!r}: hw.match({expr!r}) raises AttributeError although the sequence is known "
+                            f"({'true' if seq_t in tset else 'false'} for this model): {e}", det)
+        if ans != (seq_t in tset):
+            raise Violation("view-disagrees", f"model {model!r}: hw.match({expr!r}) is {ans}, the parse says {seq_t in tset}", det)
     base = sut.registry()
     names = list(base)
     classes = [type(base[n]) for n in names]
@@ -235,6 +269,10 @@ def check(case):
                 matching.append((n, expr))
     if len({n for n, _ in matching}) >= 2:
         labels.append("several-vendors-match")
+    if case.get("spelling_of"):
+        labels.append("other-spelling")
+        if not matching:
+            return labels + ["spelling-not-covered-by-devdb"]   # (no vendor expression applies: nothing more is claimed for it)
     # expected vendor: the expression denoting the deepest full sequence
     exp = None
     if matching:
